@@ -515,10 +515,49 @@ def main(argv):
     except subprocess.TimeoutExpired as e:
         print("INFRA-ERROR %s: timeout %s" % (pid, e))
         return 2
-    except Exception:
+    except Exception as e:
         traceback.print_exc()
+        rc = _implementation_exception(pid, e, locals().get("ctx"))
+        if rc is not None:
+            return rc
         print("INFRA-ERROR %s: harness exception" % pid)
         return 2
+
+
+def _implementation_exception(pid, e, ctx):
+    """An exception that escaped from the code under verification (innermost frame inside REPO) while the harness was
+    driving it at a place where the check expects no exception at all: the real code crashed on an input the harness
+    built, which is a concrete failure (reported with the traceback and the harness frame's locals as the replay), not
+    trouble of the machinery. Exceptions raised in harness frames stay INFRA errors (exit 2)."""
+    if ctx is None:
+        return None
+    try:
+        frames = traceback.extract_tb(e.__traceback__)
+        root = os.path.realpath(REPO) + os.sep
+        if not frames or not os.path.realpath(frames[-1].filename).startswith(root):
+            return None
+        if isinstance(e, (MemoryError, RecursionError, KeyboardInterrupt)):
+            return None
+        inner = frames[-1]
+        site = "%s:%s:%s" % (os.path.relpath(os.path.realpath(inner.filename), root), inner.name, (inner.line or "").strip())
+        hframe, hlocals = None, {}
+        tb = e.__traceback__
+        while tb is not None:
+            fn = os.path.realpath(tb.tb_frame.f_code.co_filename)
+            if fn.startswith(os.path.realpath(HERE) + os.sep):
+                hframe = "%s:%d %s" % (os.path.relpath(fn, VERIF), tb.tb_lineno, tb.tb_frame.f_code.co_name)
+                hlocals = {k: repr(v)[:2000] for k, v in tb.tb_frame.f_locals.items()
+                           if not k.startswith("__") and not callable(v) and type(v).__name__ != "module"}
+            tb = tb.tb_next
+        what = "the implementation raised %s (%s) at %s while the check was driving it from %s, where no exception is " \
+               "expected" % (type(e).__name__, str(e)[:200], site, hframe)
+        ctx.fail(what, {"traceback": traceback.format_exception(type(e), e, e.__traceback__)[-12:], "harness_frame": hframe,
+                        "harness_locals": hlocals},
+                 {"kind": "implementation-exception", "exc": type(e).__name__, "site": site})
+        return ctx.finish()
+    except Exception:
+        traceback.print_exc()
+        return None
 
 
 def setup():
